@@ -22,11 +22,15 @@ def jobs(tier):
             for after in ('include2', 'after2'):
                 js.append({'name': 'lemma every edge is reported shape=%d %s then %s' % (shape, kind, after), 'harness': ('props.fsprops', 'h_deps'),
                            'params': {'mode': 'Build', 'shape': shape, 'kind': kind, 'after': after}})
+    from . import project
+    js += project.jobs('C05', tier)
     return js
 
 
 BOUNDS = {'quick': 'all labelled digraphs with self loops on <=3 files (chosen lazily), 5-10 input selections, every completion order',
           'thorough': 'digraphs on 4 files with out-degree <=2'}
+from . import project as _project
+BOUNDS = {k: v + _project.bounds_note('C05', k) for k, v in BOUNDS.items()}
 ASSUMPTIONS = ['as C02 / C03']
 COVERS_REQUIRED = ['acyclic', 'cyclic']
 
